@@ -430,6 +430,18 @@ func SuccessCapable(r *ssa.Return, pt func(*types.Func) bool) bool {
 		return true
 	}
 	v := ResultValue(r, i)
+	// `return f(args)` inside f itself ("start over"): what is returned was produced by a
+	// return of another activation of the same function, which is judged there
+	var call *ssa.Call
+	switch x := v.(type) {
+	case *ssa.Call:
+		call = x
+	case *ssa.Extract:
+		call, _ = x.Tuple.(*ssa.Call)
+	}
+	if call != nil && call.Call.StaticCallee() == r.Parent() {
+		return false
+	}
 	return ErrState(v, r.Block(), pt) != NonNil
 }
 
